@@ -519,6 +519,43 @@ Proof.
   destruct (lookup k (ts_rows st)); auto.
 Qed.
 
+Lemma wf_NoDup t : tbl_wf t -> NoDup t.
+Proof. apply NoDup_map_inv. Qed.
+
+Lemma filter_partition_length {A} (f : A -> bool) l :
+  (length (filter f l) + length (filter (fun x => negb (f x)) l) = length l)%nat.
+Proof. induction l as [|x l IH]; cbn; auto. destruct (f x); cbn; lia. Qed.
+
+Lemma selected_count t sel :
+  tbl_wf t -> tbl_wf sel -> (forall kr, In kr sel -> In kr t) ->
+  length (filter (fun kr => existsb (key_eqb (fst kr)) (keys sel)) t) = length sel.
+Proof.
+  intros W Ws Incl. apply Permutation_length, NoDup_Permutation.
+  - apply NoDup_filter, wf_NoDup, W.
+  - apply wf_NoDup, Ws.
+  - intros [k r]. rewrite filter_In, existsb_exists. cbn. split.
+    + intros [I [k' [Ik E]]]. apply key_eqb_eq in E. subst k'.
+      apply in_map_iff in Ik. destruct Ik as [[k1 r1] [E1 I1]]. cbn in E1. subst k1.
+      pose proof (In_lookup _ _ _ W (Incl _ I1)) as L1.
+      pose proof (In_lookup _ _ _ W I) as L. rewrite L in L1. inversion L1; subst. exact I1.
+    + intro I. split; [now apply Incl|]. exists k. split; [|apply key_eqb_refl].
+      apply in_map_iff. exists (k, r). auto.
+Qed.
+
+(* the affected-row count of a DELETE is the number of rows that disappeared *)
+Theorem delete_count sch st w o lim args n l :
+  tbl_wf (ts_rows st) ->
+  r_out (exec sch st (SDelete w o lim) args) = OkMod n l ->
+  Z.of_nat (length (ts_rows (r_state (exec sch st (SDelete w o lim) args)))) =
+  Z.of_nat (length (ts_rows st)) - n.
+Proof.
+  intros W H. destruct (delete_removes_exactly _ _ _ _ _ _ _ _ H) as [sel [S [N [A [Ws _]]]]].
+  revert H. cbn. unfold exec_delete. destruct (negb _); cbn; [discriminate|].
+  rewrite S. cbn. intros _. subst n. unfold remove_keys.
+  pose proof (filter_partition_length (fun kr => existsb (key_eqb (fst kr)) (keys sel)) (ts_rows st)) as P.
+  rewrite (selected_count _ _ W (Ws W) (fun kr I => proj1 (A kr I))) in P. lia.
+Qed.
+
 (* ================================================================ LIMIT *)
 Lemma firstn_clamp {A} (n : Z) (l : list A) :
   0 <= n -> firstn (clampn n l) l = firstn (Z.to_nat n) l.
